@@ -43,9 +43,11 @@ Inductive item :=
 Definition snap := option (list (bytes * drule) * list (bytes * option (list bytes)))%type.
 
 (* [probes]: every command sent and every reply seen in the session, with what Go's json.Valid said about
-   it - the checker [wf] the theorems speak about must agree with json.Valid on all of them *)
+   it - the checker [wf] the theorems speak about must agree with json.Valid on all of them;
+   [decoded]: every command sent with whether the real json.Unmarshal into vw.Command succeeded - whatever
+   decodes must be JSON for [wf] too (what does not decode is [None] for the model: refused, nothing changed) *)
 Definition case := (bytes * list (bytes * (drule + bytes)) * list (bytes * (srule + bytes)) * list (item * snap)
-                    * list (bytes * bool))%type.
+                    * list (bytes * bool) * list (bytes * bool))%type.
 
 Definition tab_dec {R} (t : list (bytes * (R + bytes))) (raw : bytes) : R + bytes :=
   match @lookup bytes (R + bytes) beqb raw t with Some r => r | None => inr [] end.
@@ -118,12 +120,13 @@ Definition start (api : bytes) : tst :=
   mkt (mkst (if is_nil api then [] else rwc_add [] (api_rule api)) []) false.
 
 Definition case_ok (c : case) : bool :=
-  let '(api, td, ts, items, probes) := c in
-  items_ok api (tab_dec td) (tab_dec ts) (start api) items && forallb (fun p => Bool.eqb (wf (fst p)) (snd p)) probes.
+  let '(api, td, ts, items, probes, decoded) := c in
+  items_ok api (tab_dec td) (tab_dec ts) (start api) items && forallb (fun p => Bool.eqb (wf (fst p)) (snd p)) probes &&
+  forallb (fun p => negb (snd p) || wf (fst p)) decoded.
 
 (* non-trivial: the model run changes the rule tables at least twice *)
 Definition case_nontrivial (c : case) : bool :=
-  let '(api, td, ts, items, _) := c in 2 <=? nchanges api (tab_dec td) (tab_dec ts) (start api) items.
+  let '(api, td, ts, items, _, _) := c in 2 <=? nchanges api (tab_dec td) (tab_dec ts) (start api) items.
 
 
 (* diagnostics: per item, (answer agrees, tables agree) *)
@@ -138,7 +141,7 @@ Section Diag.
     end.
 End Diag.
 Definition case_flags (c : case) : list (bool * bool) * list bool :=
-  let '(api, td, ts, items, probes) := c in
+  let '(api, td, ts, items, probes, _) := c in
   (item_flags api (tab_dec td) (tab_dec ts) (start api) items, map (fun p => Bool.eqb (wf (fst p)) (snd p)) probes).
 
 Definition mismatches (cs : list case) : list N := mismatch_idx case_ok 0 cs.
